@@ -216,45 +216,73 @@ def _(v):
                                                                    RS + ":ReactionSystem.composition_balance_vectors"], kind="shape-bounded", samples=0, max_paths=400)
 def _(v):
     """the vectors REPORTED with the ODE system are invariants of the right-hand side the ODE system actually has (ReactionSystem.rates through
-    get_odesys, formula-defined species incl. ions, symbolic rate constants and coefficients): w . f(c) == sum_r rate_r * (violation of r), for every
-    concentration vector; zero for the balanced instance; and with a feed (cstr) no invariant, elimination or safe step is offered"""
+    get_odesys, formula-defined species incl. ions, an inactive product that carries the balance, a species on both sides of a reaction, symbolic rate
+    constants and coefficients): w . f(c) == sum_r rate_r * (violation of r), for every concentration vector; for the system that can be accepted
+    (a == b == 2c) the vectors are reported, are the compositions written here, and w . f(c) == 0; and with a feed (cstr) no invariant, elimination
+    or safe step is offered"""
     from collections import OrderedDict
     from chempy.chemistry import Reaction, Substance
     from chempy.reactionsystem import ReactionSystem
     from chempy.kinetics.ode import get_odesys
     from contracts.C04 import FakeSymbolicSys
-    names = ["Fe+3", "SCN-", "FeSCN+2", "H2O2", "H2O", "O2", "e-"]
+    names = ["Fe+3", "SCN-", "FeSCN+2", "H2O2", "H2O", "O2", "e-", "O"]
     subs = OrderedDict((k, Substance.from_formula(k)) for k in names)
     comp = {k: dict(s.composition) for k, s in subs.items()}
-    v.prove("compositions_as_written", comp == {"Fe+3": {26: 1, 0: 3}, "SCN-": {16: 1, 6: 1, 7: 1, 0: -1}, "FeSCN+2": {26: 1, 16: 1, 6: 1, 7: 1, 0: 2},
-                                                 "H2O2": {1: 2, 8: 2}, "H2O": {1: 2, 8: 1}, "O2": {8: 2}, "e-": {0: -1}})
+    # the compositions as the formulas are written (key 0 = charge): everything below is judged against THIS table, not against what chempy reports
+    hand = {"Fe+3": {26: 1, 0: 3}, "SCN-": {16: 1, 6: 1, 7: 1, 0: -1}, "FeSCN+2": {26: 1, 16: 1, 6: 1, 7: 1, 0: 2},
+            "H2O2": {1: 2, 8: 2}, "H2O": {1: 2, 8: 1}, "O2": {8: 2}, "e-": {0: -1}, "O": {8: 1}}
+    v.prove("compositions_as_written", comp == hand)
     a, b, c = v.int("a", lo=1, hi=3), v.int("b", lo=1, hi=3), v.int("c", lo=1, hi=3)
-    k = [v.real("k%d" % i, lo=0, hi=9) for i in range(4)]
-    lay = [({"Fe+3": 1, "SCN-": 1}, {"FeSCN+2": 1}), ({"FeSCN+2": 1}, {"Fe+3": 1, "SCN-": 1}), ({"H2O2": a}, {"H2O": b, "O2": c}), ({"Fe+3": 1, "e-": 1}, {"FeSCN+2": 1})]
-    rxns = [Reaction(dict(r), dict(p), kk, checks=()) for (r, p), kk in zip(lay, k)]
+    k = [v.real("k%d" % i, lo=0, hi=9) for i in range(6)]
+    # (active reactants, active products, inactive reactants, inactive products).  No. 3 is balanced only through its INACTIVE product (the rate law
+    # does not see it, the stoichiometry must), no. 4 has water on both sides; the last one is never balanced (sulfur, carbon, nitrogen, charge)
+    lay = [({"Fe+3": 1, "SCN-": 1}, {"FeSCN+2": 1}, {}, {}), ({"FeSCN+2": 1}, {"Fe+3": 1, "SCN-": 1}, {}, {}), ({"H2O2": a}, {"H2O": b, "O2": c}, {}, {}),
+           ({"H2O2": 1}, {"H2O": 1}, {}, {"O": 1}), ({"O": 2, "H2O": 1}, {"O2": 1, "H2O": 1}, {}, {}), ({"Fe+3": 1, "e-": 1}, {"FeSCN+2": 1}, {}, {})]
+    nb = 5       # the first nb reactions form the system that is accepted when a == b == 2c
+    rxns = [Reaction(dict(r), dict(p), kk, dict(ir) or None, dict(ip) or None, checks=()) for (r, p, ir, ip), kk in zip(lay, k)]
     rsys = ReactionSystem(rxns, subs, checks=())
     odesys, extra = v.call(get_odesys, rsys, SymbolicSys=FakeSymbolicSys)
-    y = dict(zip(odesys.names, odesys.dep))
-    inv, inv_names = odesys.linear_invariants, odesys.linear_invariant_names
-    keys = sorted({ck for cc in comp.values() for ck in cc})
-    v.prove("one_reported_vector_per_composition_key", inv is not None and [str(x) for x in keys] == list(inv_names) and len(inv) == len(keys))
-    rate = []
-    for (r, p), kk in zip(lay, k):
-        cp = 1
-        for key, nu in r.items():
-            cp = cp * SP.spow(y[key], nu)
-        rate.append(kk * cp)
-    for row, ck in zip(inv, keys):
+    keys = sorted({ck for cc in hand.values() for ck in cc})
+    rows = [[hand[s].get(ck, 0) for s in names] for ck in keys]           # one row per key, one column per substance, from the table above
+
+    def reported_ok(osys):
+        inv, inv_names = osys.linear_invariants, osys.linear_invariant_names
+        return inv is not None and inv_names is not None and [str(x) for x in keys] == list(inv_names) and [list(r) for r in inv] == rows
+
+    def rates_of(osys):
+        y = dict(zip(osys.names, osys.dep))
+        out = []
+        for (r, p, ir, ip), kk in zip(lay, k):
+            cp = 1
+            for key, nu in r.items():         # mass action over the ACTIVE reactants only
+                cp = cp * SP.spow(y[key], nu)
+            out.append(kk * cp)
+        return out
+
+    def viol_of(ck):                          # change of key ck per turn-over of each reaction, inactive parts included
+        tot = lambda side: sum(nu * hand[s].get(ck, 0) for s, nu in side.items())
+        return [tot(p) + tot(ip) - tot(r) - tot(ir) for (r, p, ir, ip) in lay]
+
+    # this system is never balanced, so its vectors are NOT invariants: reporting them (as today) or reporting nothing are both within the property;
+    # what is reported must be the composition vectors (a zero, mis-scaled or mis-ordered row is refuted also for keys every reaction conserves)
+    v.prove("one_reported_vector_per_composition_key", reported_ok(odesys) or (odesys.linear_invariants is None and odesys.linear_invariant_names is None))
+    rate = rates_of(odesys)
+    for row, ck in zip(rows, keys):
         lhs = sum(row[j] * odesys.exprs[j] for j in range(len(names)))
-        viol = [sum(nu * comp[s].get(ck, 0) for s, nu in p.items()) - sum(nu * comp[s].get(ck, 0) for s, nu in r.items()) for (r, p) in lay]
-        v.prove("reported_vector_of_key_%d_against_the_real_rhs" % ck, v.eq(lhs, sum(rt * vi for rt, vi in zip(rate, viol))))
-    # the fourth reaction is unbalanced (sulfur, carbon, nitrogen, charge) and the third unless a == b == 2c ... : the callback is offered iff all balance
+        v.prove("reported_vector_of_key_%d_against_the_real_rhs" % ck, v.eq(lhs, sum(rt * vi for rt, vi in zip(rate, viol_of(ck)))))
+    # the last reaction is unbalanced and the third unless a == b == 2c ... : the callback is offered iff all balance
     bal = SP.conj([a == b, a == 2 * c])   # H: 2a = 2b, O: 2a = b + 2c
     v.prove("safe_step_and_elimination_only_for_balanced_systems", (extra["max_euler_step_cb"] is None) and (extra["linear_dependencies"] is None))
-    rsys_b = ReactionSystem(rxns[:3], subs, checks=())
+    rsys_b = ReactionSystem(rxns[:nb], subs, checks=())
     ode_b, extra_b = v.call(get_odesys, rsys_b, SymbolicSys=FakeSymbolicSys)
     offered = extra_b["linear_dependencies"] is not None
     v.prove("elimination_offered_iff_every_reaction_balanced", SP.iff(offered, bal) if not isinstance(bal, bool) else offered == bal)
+    # 'for every accepted system the reported composition vectors are exact linear invariants of the kinetic right-hand side', on the system that
+    # CAN be accepted: when it is balanced the vectors are reported and are the table's, and each annihilates the real right-hand side
+    v.prove("accepted_system.reports_the_composition_vectors_of_the_formulas", SP.implies(bal, reported_ok(ode_b)))
+    for row, ck in zip(rows, keys):
+        lhs = sum(row[j] * ode_b.exprs[j] for j in range(len(names)))
+        v.prove("accepted_system.key_%d_is_conserved_by_the_real_rhs_when_balanced" % ck, SP.implies(bal, v.eq(lhs, 0)))
     ode_c, extra_c = v.call(get_odesys, rsys_b, cstr=True, SymbolicSys=FakeSymbolicSys)
     v.prove("with_a_feed_nothing_is_reported_as_conserved", ode_c.linear_invariants is None and ode_c.linear_invariant_names is None
             and extra_c["linear_dependencies"] is None and extra_c["max_euler_step_cb"] is None)
@@ -285,11 +313,17 @@ def _(v):
     v.prove("keys_unchanged", list(ck1) == CKS and list(ck2) == CKS)
 
 
+# H, N, O per formula unit of the NOx species, as the formulas are written (all neutral: no charge key)
+NOX = {"HNO2": {1: 1, 7: 1, 8: 2}, "H2O": {1: 2, 8: 1}, "NO": {7: 1, 8: 1}, "NO2": {7: 1, 8: 2}, "N2O4": {7: 2, 8: 4}}
+
+
 @harness("C05", "analytic_elimination", functions=["chempy.kinetics.ode:get_odesys.<locals>.linear_dependencies", "chempy.kinetics.ode:get_odesys.<locals>.linear_dependencies.<locals>.analytic_solver"], kind="data")
 def _(v):
     """'any analytic elimination of a concentration offered from them reproduces those invariants': the expression offered for an eliminated
     concentration, substituted into the conservation relations, makes them hold identically in the remaining concentrations -- which requires that no
-    eliminated concentration is left in it.  All preferred subsets of sizes 1..rank of one NOx system in two substance orders (real pyodesys object)"""
+    eliminated concentration is left in it.  All preferred subsets of sizes 1..rank and the default (no preference) of one NOx system in two substance
+    orders (real pyodesys object).  The conservation relations are A.(y - y0) = 0 with A WRITTEN HERE from the formulas (rows H, N, O), not read from
+    the implementation; a subset of concentrations can be expressed through the others exactly when its columns of A are linearly independent"""
     import itertools
     import sympy
     from collections import OrderedDict
@@ -298,42 +332,137 @@ def _(v):
     from chempy.kinetics.ode import get_odesys
     base = ReactionSystem.from_string("2 HNO2 -> H2O + NO + NO2; 3\n2 NO2 -> N2O4; 4", substance_factory=Substance.from_formula)
     for tag, order in (("order1", ["NO", "H2O", "HNO2", "N2O4", "NO2"]), ("order2", ["HNO2", "H2O", "NO", "NO2", "N2O4"])):
-        rs = ReactionSystem(base.rxns, OrderedDict((k, base.substances[k]) for k in order))
-        odesys, extra = get_odesys(rs)
-        A = sympy.Matrix(odesys.linear_invariants)
-        rank = A.rank()
+        try:
+            rs = ReactionSystem(base.rxns, OrderedDict((k, base.substances[k]) for k in order))
+            odesys, extra = get_odesys(rs)
+            reported = {str(nm): [sympy.nsimplify(x) for x in row] for nm, row in zip(odesys.linear_invariant_names, sympy.Matrix(odesys.linear_invariants).tolist())}
+        except Exception as ex:
+            v.prove(tag + ".every_offered_equation_follows_from_the_invariants", False, detail="building the system: %r" % (ex,))
+            continue
+        A = sympy.Matrix([[NOX[s].get(ck, 0) for s in order] for ck in (1, 7, 8)])
+        v.prove(tag + ".reported_vectors_are_the_compositions_of_the_formulas", reported == {str(ck): list(A.row(i)) for i, ck in enumerate((1, 7, 8))}, detail=repr(reported))
+        rank = A.rank()          # 3
+        dep = dict(zip(odesys.names, odesys.dep))
         y0 = {d: sympy.Symbol("y0_" + n) for d, n in zip(odesys.dep, odesys.names)}
-        circular, wrong, total = [], [], 0
-        for size in range(1, rank + 1):
-            for pref in itertools.combinations(order, size):
-                try:
-                    ex = extra["linear_dependencies"](list(pref))(0, y0, None, sympy)
-                except ValueError:
-                    continue              # refusing a subset is allowed
-                total += 1
-                elim = set(ex.keys())
-                if any(e.free_symbols & elim for e in ex.values()):
-                    circular.append(pref)
-                    continue
-                full = [ex.get(d, d) for d in odesys.dep]
-                resid = A * sympy.Matrix(full) - A * sympy.Matrix([y0[d] for d in odesys.dep])
-                # with the eliminated ones expressed, the remaining freedom is len(dep) - len(elim): the relations must hold modulo the OTHER invariants only if
-                # fewer were eliminated than the rank; what must always hold: every offered equation is a consequence of the invariants
-                for d, e in ex.items():
-                    lhs = sympy.expand(d - e)
-                    coeffs = sympy.Matrix([[lhs.coeff(x) for x in odesys.dep]])
-                    aug = A.col_join(coeffs)
-                    const_ok = sympy.expand(lhs - sum(c * x for c, x in zip(coeffs, odesys.dep)) + sum(c * y0[x] for c, x in zip(coeffs, odesys.dep))) == 0
-                    if aug.rank() != rank or not const_ok:
-                        wrong.append((pref, str(d)))
+        y0vec = sympy.Matrix([y0[d] for d in odesys.dep])
+        circular, wrong, other_keys, not_offered, not_reproduced, total = [], [], [], [], [], 0
+        prefs = [list(pref) for size in range(1, rank + 1) for pref in itertools.combinations(order, size)] + [None]
+        for pref in prefs:
+            eliminable = pref is None or A[:, [order.index(s) for s in pref]].rank() == len(pref)
+            try:
+                ex = extra["linear_dependencies"](pref)(0, y0, None, sympy)
+            except Exception as exc:          # refusing a subset that cannot be eliminated is right; one that can (or the default) must be served
+                if eliminable:
+                    not_offered.append((pref, repr(exc)[:80]))
+                continue
+            total += 1
+            elim = set(ex.keys())
+            if (pref is not None and elim != {dep[s] for s in pref}) or not elim or not elim <= set(odesys.dep):
+                other_keys.append((pref, sorted(map(str, elim))))
+            ex = OrderedDict((d, sympy.sympify(e)) for d, e in ex.items())
+            if any(e.free_symbols & elim for e in ex.values()):
+                circular.append(pref)
+                continue
+            # what must always hold: every offered equation is a consequence of the invariants (lies in the row space of A, constant term from y0)
+            for d, e in ex.items():
+                lhs = sympy.expand(d - e)
+                coeffs = sympy.Matrix([[lhs.coeff(x) for x in odesys.dep]])
+                aug = A.col_join(coeffs)
+                const_ok = sympy.expand(lhs - sum(c * x for c, x in zip(coeffs, odesys.dep)) + sum(c * y0[x] for c, x in zip(coeffs, odesys.dep))) == 0
+                if aug.rank() != rank or not const_ok:
+                    wrong.append((pref, str(d)))
+            # as many eliminated as there are independent relations (and always for the default): with the offers substituted EVERY relation holds identically
+            if len(elim) == rank or pref is None:
+                full = sympy.Matrix([ex.get(d, d) for d in odesys.dep])
+                resid = (A * full - A * y0vec).applyfunc(sympy.expand)
+                if len(elim) != rank or any(r != 0 for r in resid):
+                    not_reproduced.append((pref, str(list(resid))))
         v.prove(tag + ".every_offered_equation_follows_from_the_invariants", not wrong and total >= 10, detail=repr(wrong[:3]))
         v.prove(tag + ".no_eliminated_concentration_left_in_an_offered_expression", not circular, detail="circular for preferred=%s" % (circular[:4],))
+        v.prove(tag + ".the_eliminated_concentrations_are_the_requested_ones", not other_keys, detail=repr(other_keys[:3]))
+        v.prove(tag + ".every_eliminable_subset_and_the_default_are_served", not not_offered, detail=repr(not_offered[:3]))
+        v.prove(tag + ".full_and_default_eliminations_reproduce_every_invariant", not not_reproduced, detail=repr(not_reproduced[:2]))
+
+
+@harness("C05", "integration_keeps_the_invariants", functions=["chempy.kinetics.ode:get_odesys", "chempy.kinetics.ode:get_odesys.<locals>.dydt",
+                                                                "chempy.kinetics.ode:get_odesys.<locals>.linear_dependencies.<locals>.analytic_solver"], kind="data")
+def _(v):
+    """'numerical integration keeps them at their initial values to solver tolerance': the real pyodesys system of an accepted reaction system is
+    integrated (scipy, atol = rtol = 1e-9) and A.y(t) stays at A.y(0) within 1e-6 (1 + |A|.y(0)) at every reported time, A written here from the
+    formulas (NOx system: rows H, N, O; an ionic equilibrium: charge, C = N = S, Fe).  Not vacuous: the twin with an UNBALANCED first reaction
+    (2 HNO2 -> H2O + NO + 2 NO2, built with checks=()) drifts by more than 0.1 in N and O over the same time span while H stays.  And the use a caller
+    makes of an offered elimination (pyodesys' PartiallySolvedSystem) gives the same concentrations as the full integration"""
+    import warnings
+    import numpy as np
+    from collections import OrderedDict
+    from chempy.chemistry import Reaction, Substance
+    from chempy.reactionsystem import ReactionSystem
+    from chempy.kinetics.ode import get_odesys
+    tout = np.linspace(0, 2, 41)
+    kw = dict(integrator="scipy", atol=1e-9, rtol=1e-9)
+
+    def drift(res, names, comp, c0):
+        """per composition key: max over the reported times of |sum_s comp[s][key] (y_s(t) - y_s(0))|, and the tolerance 1e-6 (1 + sum_s |comp| y_s(0))"""
+        out = {}
+        for ck in sorted({k for s in names for k in comp[s]}):
+            tot = sum(comp[s].get(ck, 0) * (np.asarray(res.named_dep(s), dtype=float) - c0[s]) for s in names)
+            out[ck] = (float(np.max(np.abs(tot))), 1e-6 * (1 + sum(abs(comp[s].get(ck, 0)) * c0[s] for s in names)))
+        return out
+
+    with warnings.catch_warnings():
+        warnings.simplefilter("ignore")
+        order = ["HNO2", "H2O", "NO", "NO2", "N2O4"]
+        c0 = dict(zip(order, [1.0, 0.2, 0.1, 0.3, 0.05]))
+        try:
+            subs = OrderedDict((k, Substance.from_formula(k)) for k in order)
+            second = Reaction({"NO2": 2}, {"N2O4": 1}, 4)
+            rs = ReactionSystem([Reaction({"HNO2": 2}, {"H2O": 1, "NO": 1, "NO2": 1}, 3), second], subs)
+            odesys, extra = get_odesys(rs)
+            res = odesys.integrate(tout, c0, **kw)
+            d = drift(res, order, NOX, c0)
+            moved = float(abs(res.named_dep("HNO2")[-1] - c0["HNO2"]))
+            ok, det = bool(res.info["success"]) and all(dr <= tol for dr, tol in d.values()) and moved > 0.5, "drift, tolerance per key: %r; HNO2 consumed: %g" % (d, moved)
+        except Exception as ex:
+            res, ok, det = None, False, repr(ex)[:300]
+        v.prove("nox.element_totals_stay_at_their_initial_values", ok, detail=det)
+        try:
+            twin = ReactionSystem([Reaction({"HNO2": 2}, {"H2O": 1, "NO": 1, "NO2": 2}, 3, checks=()), second], subs, checks=())
+            d = drift(get_odesys(twin)[0].integrate(tout, c0, **kw), order, NOX, c0)
+            ok, det = d[7][0] > 0.1 and d[8][0] > 0.1 and d[1][0] <= d[1][1], repr(d)
+        except Exception as ex:
+            ok, det = False, repr(ex)[:300]
+        v.prove("nox.an_unbalanced_twin_visibly_drifts_in_the_violated_keys_only", ok, detail=det)
+        ions = ["Fe+3", "SCN-", "FeSCN+2"]
+        icomp = {"Fe+3": {0: 3, 26: 1}, "SCN-": {0: -1, 6: 1, 7: 1, 16: 1}, "FeSCN+2": {0: 2, 6: 1, 7: 1, 16: 1, 26: 1}}
+        ic0 = {"Fe+3": 0.8, "SCN-": 0.5, "FeSCN+2": 0.1}
+        try:
+            irs = ReactionSystem([Reaction({"Fe+3": 1, "SCN-": 1}, {"FeSCN+2": 1}, 5.0), Reaction({"FeSCN+2": 1}, {"Fe+3": 1, "SCN-": 1}, 0.7)], [Substance.from_formula(k) for k in ions])
+            ires = get_odesys(irs)[0].integrate(tout, ic0, **kw)
+            d = drift(ires, ions, icomp, ic0)
+            moved = float(abs(ires.named_dep("FeSCN+2")[-1] - ic0["FeSCN+2"]))
+            ok, det = bool(ires.info["success"]) and all(dr <= tol for dr, tol in d.values()) and moved > 0.1, "drift, tolerance per key: %r; complex formed: %g" % (d, moved)
+        except Exception as ex:
+            ok, det = False, repr(ex)[:300]
+        v.prove("ions.charge_and_element_totals_stay_at_their_initial_values", ok, detail=det)
+        # an offered elimination in use: the reduced system must trace the same concentrations (all five, the eliminated ones through the offers)
+        worst = []
+        for pref in (None, ["HNO2", "NO2"], ["N2O4"]):
+            try:
+                from pyodesys.symbolic import PartiallySolvedSystem
+                red = PartiallySolvedSystem(odesys, extra["linear_dependencies"](pref)).integrate(tout, c0, **kw)
+                err = max(float(np.max(np.abs(np.asarray(red.named_dep(s), dtype=float) - np.asarray(res.named_dep(s), dtype=float)))) for s in order)
+                if not (bool(red.info["success"]) and err <= 1e-6):
+                    worst.append((pref, err))
+            except Exception as ex:
+                worst.append((pref, repr(ex)[:200]))
+        v.prove("nox.integration_with_an_offered_elimination_gives_the_same_concentrations", res is not None and not worst, detail=repr(worst))
 
 
 @harness("C05", "decimal_compositions", functions=[RS + ":ReactionSystem.check_balance", CH + ":Reaction.composition_violation"], kind="data")
 def _(v):
     """formula-defined substances with decimal subscripts: a reaction that leaves every element unchanged (exactly, in the decimals as written) is
     accepted, one that does not is refused naming the element"""
+    from fractions import Fraction as Fr
     from chempy.chemistry import Substance, Reaction, balance_stoichiometry
     from chempy.reactionsystem import ReactionSystem
     subs = [Substance.from_formula(f) for f in ("Fe0.1O0.1", "Fe0.3O0.3")]
@@ -343,14 +472,22 @@ def _(v):
     except ValueError as e:
         ok, det = False, str(e)
     v.prove("balanced_in_the_decimals_as_written_is_accepted", ok, detail=det)
-    r, p = balance_stoichiometry({"Fe0.1O0.1"}, {"Fe0.3O0.3"})
-    v.prove("the_balancer_returns_that_very_reaction", (dict(r), dict(p)) == ({"Fe0.1O0.1": 3}, {"Fe0.3O0.3": 1}))
+    # what the library's own balancer makes of these two species is C02's business (a refusal is not judged here); C05's is only that, if it answers, it
+    # answers with the reaction called balanced above: the only ratio that conserves Fe and O in the decimals as written is 3 : 1
+    try:
+        r, p = balance_stoichiometry({"Fe0.1O0.1"}, {"Fe0.3O0.3"})
+        okb, detb = set(r) == {"Fe0.1O0.1"} and set(p) == {"Fe0.3O0.3"} and r["Fe0.1O0.1"] == 3 * p["Fe0.3O0.3"] and p["Fe0.3O0.3"] > 0, repr((dict(r), dict(p)))
+    except Exception as e:
+        okb, detb = True, repr(e)
+    v.prove("the_balancer_returns_that_very_reaction", okb, detail=detb)
     try:
         ReactionSystem([Reaction({"Fe0.1O0.1": 2}, {"Fe0.3O0.3": 1})], subs)
         refused = None
     except ValueError as e:
         refused = str(e)
-    v.prove("unbalanced_is_refused_naming_an_element", refused is not None and ("(26:" in refused or "(8:" in refused), detail=repr(refused))
+    # 2 * 0.1 -> 0.3 leaves 1/10 of an iron and of an oxygen: either may be named (wording free, see _names_a_violated_key)
+    v.prove("unbalanced_is_refused_naming_an_element", refused is not None and _names_a_violated_key(refused, [({"Fe0.1O0.1", "Fe0.3O0.3"}, {26: Fr(1, 10), 8: Fr(1, 10)})], {26: "Fe", 8: "O"}),
+            detail=repr(refused))
     halves = [Substance.from_formula(f) for f in ("H0.5", "H2")]
     try:
         ReactionSystem([Reaction({"H0.5": 4}, {"H2": 1})], halves)
@@ -360,32 +497,154 @@ def _(v):
     v.prove("binary_fractions_accepted", okh)
 
 
+def _species_in(msg, species):
+    """the species whose key stands in the text as a word of its own (H2O is not found inside H2O2, e- not inside Fe-...)"""
+    import re
+    return {sp for sp in species if re.search(r"(?<![A-Za-z0-9])" + re.escape(sp) + r"(?![A-Za-z0-9])", msg)}
+
+
+def _names_a_violated_key(msg, reactions, symbols):
+    """'construction fails with a ValueError naming a violated key'.  reactions: [(species of the reaction, {key: violation})], symbols: {key: symbol}.
+    The wording is not part of the property: accepted are (1) today's 'Composition violation (<key>: <amount>) in <reaction>' -- then the key must be
+    a violated one and the amount its violation (as a float or a fraction p/q) -- and (2) any other text in which, once the species are taken out,
+    at least one violated key stands as a number or as its element symbol ('charge' for key 0) and no symbol of a key that is NOT violated does.  In both forms,
+    when the text shows exactly the species of one reaction, the key must be violated by THAT reaction (not merely by some reaction of the system)"""
+    import re
+    from fractions import Fraction
+    if not msg:
+        return False
+    every = set().union(*[set(sp) for sp, _ in reactions])
+    shown = _species_in(msg, every)
+    printed = [viol for sp, viol in reactions if set(sp) == shown]
+    allowed = {}
+    for viol in (printed if printed else [viol for _, viol in reactions]):
+        for ck, amount in viol.items():
+            allowed.setdefault(ck, set()).add(Fraction(amount))
+    m = re.search(r"Composition violation \(([^:()]+): ([^()]+)\)", msg)
+    if m is not None:
+        try:
+            named = [ck for ck in symbols if m.group(1).strip() in (str(ck), symbols[ck])]
+            amount = m.group(2).strip()
+            amount = Fraction(amount) if "/" in amount else float(amount)
+        except ValueError:
+            return False
+        return len(named) == 1 and named[0] in allowed and any(abs(float(amount) - float(a)) <= 1e-9 * max(1, abs(float(a))) for a in allowed[named[0]])
+    # free wording: take the reaction as printed (from its first to its last species, with a leading coefficient) and any other species out, then look
+    # for keys.  Numbers are ambiguous (an amount 'off by 1' is not the key 1), symbols are not: a wrong SYMBOL is held against the message
+    spans = [mt.span() for sp in every for mt in re.finditer(r"(?:\d+ )?(?<![A-Za-z0-9])" + re.escape(sp) + r"(?![A-Za-z0-9])", msg)]
+    text = msg if not spans else msg[:min(a for a, _ in spans)] + " " + msg[max(b for _, b in spans):]
+    numbers = {int(t) for t in re.findall(r"(?<![\w.+/-])\d+(?![\w./])", text)}
+    words = set(re.findall(r"[A-Za-z]+", text))
+    by_symbol = {ck for ck in symbols if symbols[ck] in words}
+    named = by_symbol | {ck for ck in symbols if ck in numbers}
+    return bool(named & set(allowed)) and by_symbol <= set(allowed)
+
+
 @harness("C05", "refusal_names_a_violated_key", functions=[RS + ":ReactionSystem.check_balance", RS + ":ReactionSystem.__init__"], kind="data")
 def _(v):
-    """'construction fails with a ValueError naming a violated key': the key printed in the message is one the named reaction really changes, by the
-    amount printed; charge-only imbalance names key 0; formula-defined species (ions incl. the electron) and explicit compositions"""
-    import re
+    """'construction fails with a ValueError naming a violated key': the key named in the message is one that the reaction shown really changes (by
+    the amount printed, when one is printed); charge-only imbalance names key 0; formula-defined species (ions incl. the electron) and explicit
+    compositions; a violation in the second reaction is not laid at the first one's door; with two unbalanced reactions (different keys) the key goes
+    with the reaction shown.  The wording itself is free, see _names_a_violated_key"""
     from chempy.chemistry import Reaction, Substance
     from chempy.reactionsystem import ReactionSystem
     F = Substance.from_formula
+    sym = {0: "charge", 1: "H", 7: "N", 8: "O", 26: "Fe", 99: "Es"}
+    # per case: reactions, substances, per reaction the hand-computed {violated key: amount} (products - reactants)
     cases = [
-        ("element_only", [Reaction({"H2O2": 1}, {"H2O": 1})], [F("H2O2"), F("H2O")], {8: -1}),
-        ("charge_only", [Reaction({"Fe+3": 1}, {"Fe+2": 1})], [F("Fe+3"), F("Fe+2")], {0: -1}),
-        ("charge_only_second_reaction", [Reaction({"Fe+3": 1, "e-": 1}, {"Fe+2": 1}), Reaction({"Fe+2": 1}, {"Fe+3": 1})], [F("Fe+3"), F("Fe+2"), F("e-")], {0: 1}),
-        ("both", [Reaction({"NH4+": 1}, {"NH3": 1})], [F("NH4+"), F("NH3")], {0: -1, 1: -1}),
-        ("explicit_compositions", [Reaction({"A": 2}, {"B": 1})], [Substance("A", composition={1: 1, 99: 2}), Substance("B", composition={1: 2, 99: 5})], {99: 1}),
+        ("element_only", [Reaction({"H2O2": 1}, {"H2O": 1})], [F("H2O2"), F("H2O")], [{8: -1}]),
+        ("charge_only", [Reaction({"Fe+3": 1}, {"Fe+2": 1})], [F("Fe+3"), F("Fe+2")], [{0: -1}]),
+        ("charge_only_second_reaction", [Reaction({"Fe+3": 1, "e-": 1}, {"Fe+2": 1}), Reaction({"Fe+2": 1}, {"Fe+3": 1})], [F("Fe+3"), F("Fe+2"), F("e-")], [{}, {0: 1}]),
+        ("both", [Reaction({"NH4+": 1}, {"NH3": 1})], [F("NH4+"), F("NH3")], [{0: -1, 1: -1}]),
+        ("explicit_compositions", [Reaction({"A": 2}, {"B": 1})], [Substance("A", composition={1: 1, 99: 2}), Substance("B", composition={1: 2, 99: 5})], [{99: 1}]),
+        ("two_unbalanced_reactions_with_different_keys", [Reaction({"H2O2": 1}, {"H2O": 1}), Reaction({"Fe+3": 1}, {"Fe+2": 1})], [F("H2O2"), F("H2O"), F("Fe+3"), F("Fe+2")], [{8: -1}, {0: -1}]),
     ]
     for label, rxns, subs, violated in cases:
         try:
             ReactionSystem(rxns, subs)
-            msg = None
+            msg, refused = None, False
         except ValueError as e:
-            msg = str(e)
-        m = re.search(r"Composition violation \((-?\d+): (-?[0-9.e+-]+)\)", msg or "")
-        ok = m is not None and int(m.group(1)) in violated and abs(float(m.group(2)) - violated[int(m.group(1))]) < 1e-12
+            msg, refused = str(e), True
+        except Exception as e:
+            msg, refused = repr(e), False
+        keys = {ck for sb in subs for ck in sb.composition}
+        ok = refused and _names_a_violated_key(msg, [(set(r.keys()), vi) for r, vi in zip(rxns, violated)], {ck: sym[ck] for ck in keys})
         v.prove(label, ok, detail=repr(msg))
-    balanced = ReactionSystem([Reaction({"Fe+3": 1, "e-": 1}, {"Fe+2": 1}), Reaction({"H2O2": 2}, {"H2O": 2, "O2": 1})], [F(k) for k in ("Fe+3", "e-", "Fe+2", "H2O2", "H2O", "O2")])
-    v.prove("balanced_formula_defined_system_is_accepted", balanced.nr == 2)
+    try:
+        balanced = ReactionSystem([Reaction({"Fe+3": 1, "e-": 1}, {"Fe+2": 1}), Reaction({"H2O2": 2}, {"H2O": 2, "O2": 1})], [F(k) for k in ("Fe+3", "e-", "Fe+2", "H2O2", "H2O", "O2")])
+        ok, det = balanced.nr == 2, ""
+    except Exception as e:
+        ok, det = False, repr(e)
+    v.prove("balanced_formula_defined_system_is_accepted", ok, detail=det)
+    # the judge itself: wrong attributions and wrong keys are rejected, other wordings of a right refusal are not (so the obligations above can fail)
+    second = [({"Fe+3", "e-", "Fe+2"}, {}), ({"Fe+2", "Fe+3"}, {0: 1})]
+    two = [({"H2O2", "H2O"}, {8: -1}), ({"Fe+3", "Fe+2"}, {0: -1})]
+    s2, s4 = {0: "charge", 26: "Fe"}, {0: "charge", 1: "H", 8: "O", 26: "Fe"}
+    judge = [_names_a_violated_key("Composition violation (0: 1) in Fe+2 -> Fe+3", second, s2), not _names_a_violated_key("Composition violation (0: 1) in Fe+3 + e- -> Fe+2", second, s2),
+             not _names_a_violated_key("Composition violation (26: 1) in Fe+2 -> Fe+3", second, s2), not _names_a_violated_key("Composition violation (0: -1) in Fe+2 -> Fe+3", second, s2),
+             not _names_a_violated_key("Composition violation (0: -1) in H2O2 -> H2O", two, s4), _names_a_violated_key("Composition violation (8: -1) in H2O2 -> H2O", two, s4),
+             _names_a_violated_key("Unbalanced reaction Fe+3 -> Fe+2: charge changes", two, s4), not _names_a_violated_key("Unbalanced reaction Fe+3 -> Fe+2: O changes", two, s4),
+             _names_a_violated_key("key 8 is not conserved by H2O2 -> H2O (off by -1)", two, s4), not _names_a_violated_key("key 1 is not conserved by H2O2 -> H2O", two, s4),
+             not _names_a_violated_key("unbalanced", two, s4), _names_a_violated_key("Composition violation (O: -1/1) in H2O2 -> H2O", two, s4),
+             _names_a_violated_key("Unbalanced key 99 (off by 1) in 2 A -> B", [({"A", "B"}, {99: 1})], {1: "H", 99: "Es"}), not _names_a_violated_key("Unbalanced key 1 in 2 A -> B", [({"A", "B"}, {99: 1})], {1: "H", 99: "Es"}),
+             not _names_a_violated_key("Unbalanced: H in 2 A -> B", [({"A", "B"}, {99: 1})], {1: "H", 99: "Es"})]
+    v.prove("the_judge_of_messages_rejects_wrong_keys_and_wrong_attributions", all(judge), detail=repr(judge))
+
+
+@harness("C05", "every_way_of_giving_the_substances", functions=[RS + ":ReactionSystem.__init__", RS + ":ReactionSystem.from_string", RS + ":ReactionSystem.check_balance"], kind="data")
+def _(v):
+    """'a reaction system is accepted if and only if every reaction leaves every composition key unchanged', through every form in which the
+    substances can be handed over (the symbolic iff above goes through an OrderedDict only): a list and a tuple of Substance (keyed by name), a plain
+    dict (sorted by the constructor), an OrderedDict, a string of keys with a substance factory, ReactionSystem.from_string (the library makes the
+    formula-defined substances itself) and a system of Equilibrium objects.  Per form: the balanced pair of reactions is accepted and
+    check_balance(strict=True) -- the gate get_odesys uses -- says True; with the electron left out (charge-only imbalance) it is refused with a
+    ValueError naming the charge"""
+    from collections import OrderedDict
+    from chempy.chemistry import Equilibrium, Reaction, Substance
+    from chempy.reactionsystem import ReactionSystem
+    F = Substance.from_formula
+    names = ["H2O2", "H2O", "O2", "Fe+3", "e-", "Fe+2"]
+    sym = {0: "charge", 1: "H", 8: "O", 26: "Fe"}
+    rx = lambda cls, with_electron, *a: [cls({"H2O2": 2}, {"H2O": 2, "O2": 1}, *a), cls({"Fe+3": 1, "e-": 1} if with_electron else {"Fe+3": 1}, {"Fe+2": 1}, *a)]
+    text = lambda with_electron: "2 H2O2 -> 2 H2O + O2\n" + ("Fe+3 + e- -> Fe+2" if with_electron else "Fe+3 -> Fe+2")
+    forms = [
+        ("list", lambda e: ReactionSystem(rx(Reaction, e), [F(n) for n in names])),
+        ("tuple", lambda e: ReactionSystem(rx(Reaction, e), tuple(F(n) for n in names))),
+        ("plain_dict", lambda e: ReactionSystem(rx(Reaction, e), {n: F(n) for n in names})),
+        ("ordered_dict", lambda e: ReactionSystem(rx(Reaction, e), OrderedDict((n, F(n)) for n in names))),
+        ("string_and_factory", lambda e: ReactionSystem(rx(Reaction, e), " ".join(names), substance_factory=F)),
+        ("from_string", lambda e: ReactionSystem.from_string(text(e), substance_factory=F)),
+        ("equilibria", lambda e: ReactionSystem(rx(Equilibrium, e, 10.0), [F(n) for n in names])),
+    ]
+    # hand calculation: 2 H2O2 -> 2 H2O + O2 conserves H (4), O (4) and charge (0); Fe+3 + e- -> Fe+2 conserves Fe and charge (3 - 1 = 2); without
+    # the electron the charge goes from 3 to 2 (violation -1) and nothing else changes
+    per_reaction = [({"H2O2", "H2O", "O2"}, {}), ({"Fe+3", "Fe+2"}, {0: -1})]
+    for label, make in forms:
+        try:
+            rs = make(True)
+            ok, det = rs.nr == 2 and set(rs.substances) == set(names) and rs.check_balance(strict=True) is True and rs.check_balance() is True, ""
+        except Exception as ex:
+            ok, det = False, repr(ex)[:200]
+        v.prove(label + ".balanced_is_accepted", ok, detail=det)
+        try:
+            make(False)
+            ok, det = False, "accepted"
+        except ValueError as ex:
+            ok, det = _names_a_violated_key(str(ex), per_reaction, sym), str(ex)
+        except Exception as ex:
+            ok, det = False, repr(ex)[:200]
+        v.prove(label + ".charge_only_imbalance_is_refused_naming_the_charge", ok, detail=det)
+    try:
+        loose = ReactionSystem(rx(Reaction, False), [F(n) for n in names], checks=())
+        ok, det = loose.check_balance(strict=True) is False and loose.check_balance() is False, ""
+        try:
+            loose.check_balance(strict=True, throw=True)
+            ok, det = False, "throw=True returned"
+        except ValueError as ex:
+            ok, det = ok and _names_a_violated_key(str(ex), per_reaction, sym), str(ex)
+    except Exception as ex:
+        ok, det = False, repr(ex)[:200]
+    v.prove("strict_check_of_a_fully_composed_unbalanced_system_says_no", ok, detail=det)
 
 
 @harness("C05", "keys_are_not_names", functions=[CH + ":Reaction.composition_violation", RS + ":ReactionSystem.check_balance", RS + ":ReactionSystem.composition_balance_vectors"], kind="shape-bounded", samples=10)
@@ -424,6 +683,8 @@ def _(v):
     from chempy.reactionsystem import ReactionSystem
     from chempy.kinetics.ode import _create_odesys
     rs = ReactionSystem.from_string("2 H2O2 -> 2 H2O + O2; 'k1'\nH2O -> H+ + OH-; 'k2'", "H2O2 H2O O2 H+ OH-".split())
+    # charge, H and O per formula unit over H2O2 H2O O2 H+ OH- (written from the formulas)
+    want = {"0": [0, 0, 0, 1, -1], "1": [2, 2, 0, 1, 1], "8": [2, 1, 2, 0, 1]}
     for label, kw in (("closed", {}), ("with_a_feed", {"rates_kw": dict(cstr_fr_fc=("fr", {k: "fc_" + k for k in rs.substances}))})):
         try:
             o, _e = _create_odesys(rs, **kw)
@@ -433,8 +694,14 @@ def _(v):
             ok, det = all(r == 0 for r in resid), repr(resid)[:300]
             if label == "closed":
                 ok = ok and len(rows) == 3                       # H, O and charge
+                # 'the reported COMPOSITION vectors': three zero rows, one row three times or rows under the wrong names annihilate the rhs as well
+                names = o.linear_invariant_names
+                same = names is not None and len(names) == len(rows) and {str(n): [sympy.nsimplify(c) for c in row] for n, row in zip(names, rows)} == want
+                v.prove("closed.reported_vectors_are_the_compositions_of_the_formulas", same, detail="%r %r" % (names, rows))
         except Exception as ex:
             ok, det = False, repr(ex)[:200]
+            if label == "closed":
+                v.prove("closed.reported_vectors_are_the_compositions_of_the_formulas", False, detail=det)
         v.prove(label + ".reported_vectors_annihilate_the_right_hand_side", ok, detail=det)
 
 
@@ -461,7 +728,8 @@ def _(v):
         bad = Reaction({"UO2.1": 3}, {"U3O6.7": 1})
         try:
             viol = dict(zip(*reversed(bad.composition_violation({s.name: s for s in subs}, composition_keys=True))))
-            ok, det = viol == {8: num(4, 10), 92: 0}, repr(viol)
+            # the violation as a VALUE: 3 * 2.1 -> 6.7 leaves 2/5 of an oxygen (whether it comes back as Decimal('0.4'), Fraction(2, 5) or the float 0.4)
+            ok, det = set(viol) == {8, 92} and Fr(str(viol[8])) == Fr(2, 5) and viol[92] == 0, repr(viol)
             try:
                 ReactionSystem([bad], subs)
                 ok = False
